@@ -13,11 +13,14 @@ NOT_EXHIBITABLE = ['loadFlag.stale', 'dtorThrow', 'crash']
 
 def run(res, tier):
     res.assumptions += [
-        'unique inputs: NOT an assumption any more - the composition of the When model with n instances of the C01 hand-off model '
-        '(Model/WhenCompose.lean) simulates the When model (input_interface_sound: the callback of input i is entered exactly once, '
-        'inline by the registering thread only if the word already held the result, else by the completing thread after the '
-        'callback was installed) and the property theorems are lifted to it; shared inputs are still abstracted by their proven '
-        'C06 interface (callback entered exactly once) plus the callback-node theorem (every shared input has its own node)',
+        'the input interface of the When model ("the combinator callback of input i is entered exactly once: inline by the '
+        'registering thread only if the input was already complete, else by the completing thread after the callback was '
+        'installed") is a THEOREM, not an assumption: for unique inputs the composition with n instances of the C01 model '
+        '(WhenU, input_interface_sound, incl. quiescence), for SharedFuture inputs the composition with n instances of the C06 '
+        'model with arbitrary other observers (WhenS, shared_input_interface_sound; entries synchronised, Retire() of the entered '
+        'callback is C06 retire_moves_only_as_sole_owner; quiescence of WhenS is not lifted: not-lost per instance is C06 '
+        'quiescent_complete); that every shared input has its own callback node is the node theorem; a pack mixing unique and '
+        'shared inputs in one composed system is not modelled (each kind separately)',
         'every input eventually completes (a dropped Promise completes its Future with StopError), so "quiescent" means finished',
         'the model allows stale pre-check loads of the done flag; the FIBER backend never produces them',
         'values are abstract (identified by the index of the input they came from); moves/copies of payloads are checked by the '
